@@ -37,8 +37,11 @@ class DiagGen:
         r = self.r
         c = r.random()
         v = "z%d" % self.marker()
-        if c < 0.25:
+        if c < 0.12:
             return [Asg(v, Int(r.choice([1, 2, 3])))]
+        if c < 0.25:
+            # a string that layouts may continue on the next line with a backslash (shifts the lines after it)
+            return [Asg(v, Str(r.choice(["x y", "a b c", "one two"])))]
         if c < 0.45:
             return [If([Cmp(["<"], [Int(1), Int(2)])], [Block([Asg(v, Int(1)), Asg(v + "b", Int(2))])], Block([Asg(v, Int(3))]))]
         if c < 0.6:
